@@ -69,7 +69,7 @@ structure CmdEnv where
   oldResolves : Bool
   newResolves : Bool
   newIsHead : Bool
-  changedFilesParse : Bool
+  changedFilesParse : Bool  -- every file the command has to rewrite parses
   hasMain : Bool
   hasPoints : Bool          -- the diff yields at least one tracking point
   hasMarkers : Bool         -- patch: a delete/insert marker exists; clean: any artefact exists
@@ -129,6 +129,7 @@ def plan (e : CmdEnv) : Cmd → Except Refusal (List Write)
       | none =>
         if !e.hasMain then .error .noMain
         else if !e.hasMarkers then .ok []
+        else if !e.changedFilesParse then .error .parseError      -- a marked file that does not parse: prepare fails before any write
         else .ok [.source, .generated, .mainEntry]
   | .clean =>
     match preRun e with
@@ -136,7 +137,10 @@ def plan (e : CmdEnv) : Cmd → Except Refusal (List Write)
     | none =>
       match loadCfg e with
       | some r => .error r
-      | none => if !e.hasMarkers then .ok [] else .ok [.source, .removeGenerated, .removeDir]
+      | none =>
+        if !e.hasMarkers then .ok []
+        else if !e.changedFilesParse then .error .parseError    -- all files are prepared (parsed) before the first write
+        else .ok [.source, .removeGenerated, .removeDir]
 
 /-! ## 3. item-level project state (C11 "never loses user code", C15 crash prefixes) -/
 
